@@ -117,9 +117,11 @@ REASONS = {"Missing source file": "MS", "Missing reference file": "MR", "Unsuppo
 
 
 def _have_meshio() -> bool:
+    """is '.dat' a mesh extension in this environment? (what fieldcompare's optional meshio bridge needs)"""
     try:
-        import meshio  # noqa: F401
-        return True
+        from meshio import extension_to_filetypes, read, Mesh  # noqa: F401
+        from meshio.xdmf import TimeSeriesReader  # noqa: F401
+        return ".dat" in extension_to_filetypes
     except Exception:
         return False
 
@@ -327,7 +329,7 @@ def run_dir_mode(a: str, b: str, o, xml: str, rels: list[str]) -> dict:
     if verbosity is None or verbosity >= 2:
         n = 0
         for line in ANSI.sub("", log).splitlines():
-            if "INFO" in line and "filtered out" in line:
+            if "INFO" in line:
                 m = re.search(r"(\d+)", line.split("]", 1)[-1])
                 if m:
                     n = int(m.group(1))
@@ -461,9 +463,10 @@ def compare(rows, obs, file_cls, expected, o):
     return diffs
 
 
-def check_case(case, scratch, lean_reply=None):
-    """-> dict(rows, obs, spec, diffs_spec, diffs_model, inconsistent)"""
-    rows, obs, file_cls, walk = observe(case, scratch)
+def evaluate(case, observed, rep=None):
+    """compare one observed case with the Python oracle of the property and (if given) the driver's reply
+    -> dict(rows, obs, spec, diffs_spec, diffs_model, inconsistent)"""
+    rows, obs, file_cls, walk = observed
     o = case["opts"]
     spec = py_spec(rows, o)
     res = {"rows": rows, "obs": obs, "spec": spec, "walk": walk,
@@ -472,8 +475,7 @@ def check_case(case, scratch, lean_reply=None):
     truth_b = sorted(r["rel"] for r in rows if r["inB"])
     if walk is not None and (walk[0] != truth_a or walk[1] != truth_b):
         res["diffs_spec"].append(f"_find_sub_files_recursively returned {walk} for the trees {truth_a} / {truth_b}")
-    if lean_reply is not None:
-        rep = lean_reply(enc_line(rows, o))
+    if rep is not None:
         res["lean"] = rep
         if rep.get("hyp") != "1" or "model" not in rep:
             res["inconsistent"] = ("driver reply", str(rep))
@@ -488,6 +490,13 @@ def check_case(case, scratch, lean_reply=None):
             elif s != (spec[0], spec[1], sorted(spec[2].items())):
                 res["inconsistent"] = ("lean-spec=" + rep["spec"], f"python-oracle={spec}")
     return res
+
+
+def check_case(case, scratch, lean=None):
+    """observe + evaluate one case; `lean(lines) -> replies` is the driver (or None)"""
+    observed = observe(case, scratch)
+    rep = lean([enc_line(observed[0], case["opts"])])[0] if lean is not None else None
+    return evaluate(case, observed, rep)
 
 
 # ------------------------------------------------------------------------------------------------
@@ -683,8 +692,7 @@ def _tags(case, res):
     return tags
 
 
-def _one(ctx, case, scratch, lean_reply, group):
-    res = check_case(case, scratch, lean_reply)
+def _record(ctx, case, res, scratch, group):
     codes = res["spec"][2]
     nontrivial = len(set(codes.values())) >= 2 or any(c != "P" for c in codes.values()) or res["spec"][1] > 0
     key = (tuple(tuple(f) for f in sorted(case["files"])), tuple(sorted((k, str(v)) for k, v in case["opts"].items())))
@@ -696,6 +704,11 @@ def _one(ctx, case, scratch, lean_reply, group):
     if res["inconsistent"]:
         ctx.inconsistent(case, res["inconsistent"][0], res["inconsistent"][1])
     if res["diffs_spec"]:
+        if len(ctx.spec_viol) >= 20:     # enough replays; do not spend the budget on shrinking more of them
+            ctx.spec_viol.append({"what": "further candidate (not shrunk)", "case": case, "impl": res["diffs_spec"],
+                                  "spec": None, "class": None})
+            return
+
         def still(c):
             return bool(check_case(c, scratch)["diffs_spec"])
         small = shrink(case, scratch, still)
@@ -710,7 +723,6 @@ def _one(ctx, case, scratch, lean_reply, group):
     elif res["diffs_model"]:
         ctx.mismatch(case, {"exit": res["obs"]["exit"], "suites": res["obs"]["suites"], "orphans": res["obs"]["orphans"],
                             "differences": res["diffs_model"]}, res.get("lean"))
-    return res
 
 
 def run(ctx):
@@ -728,10 +740,7 @@ def run(ctx):
     ]
     scratch = Scratch()
     try:
-        def lean_reply(line):
-            return ctx.lean([line])[0]
-        # batch the driver: first observe, then one driver call — done per chunk below
-        n_rand = ctx.scale(300, 20000)
+        n_rand = ctx.scale(500, 12000)
         n_small = ctx.scale(150, 10 ** 9)
         cases = [("random", gen_case(ctx.rng)) for _ in range(n_rand)]
         small = list(small_scope_cases())
@@ -741,8 +750,15 @@ def run(ctx):
             ctx.exhaustive = True
             ctx.notes.append(f"small scope exhaustive: {len(small)} (tree pair, flags, filter) cases")
         cases += [("small-scope", c) for c in small]
-        for group, case in cases:
-            _one(ctx, case, scratch, lean_reply if ctx.driver_ok else None, group)
+        CH = 250     # observe a chunk of cases, then ONE driver call for the chunk
+        for i in range(0, len(cases), CH):
+            chunk = cases[i:i + CH]
+            observed = [observe(case, scratch) for _, case in chunk]
+            replies = [None] * len(chunk)
+            if ctx.driver_ok:
+                replies = ctx.lean([enc_line(ob[0], case["opts"]) for ob, (_, case) in zip(observed, chunk)])
+            for (group, case), ob, rep in zip(chunk, observed, replies):
+                _record(ctx, case, evaluate(case, ob, rep), scratch, group)
         check_find_matches(ctx, ctx.scale(400, 20000))
     finally:
         scratch.close()
@@ -777,15 +793,15 @@ def replay(ctx, payload):
         return 1 if bad else 0
     scratch = Scratch()
     try:
-        def lean_reply(line):
-            return ctx.lean([line])[0]
-        res = check_case(case, scratch, lean_reply if ctx.driver_ok else None)
+        res = check_case(case, scratch, ctx.lean if ctx.driver_ok else None)
     finally:
         scratch.close()
     print(f"replay: impl exit={res['obs']['exit']} suites={res['obs']['suites']} orphans={res['obs']['orphans']}")
     print(f"        property: exit={res['spec'][0]} orphans={res['spec'][1]} suites={sorted(res['spec'][2].items())}")
-    for d in res["diffs_spec"] + res["diffs_model"]:
-        print("        difference:", d)
+    for d in res["diffs_spec"]:
+        print("        implementation vs property:", d)
+    for d in res["diffs_model"]:
+        print("        implementation vs Lean model:", d)
     if res["diffs_spec"] or res["diffs_model"]:
         print(f"VIOLATION property=C12 replay={payload.get('_path', '<replay>')}")
         return 1
